@@ -56,14 +56,26 @@ template<typename S, size_t D> static void family(std::mt19937 & rng, int count)
     GridIndexMapping<S, D> g(half, res);
     RayCasting<S, D> reused(&g);
     V prev_o = V::Zero(), prev_e = V::Constant(half / 2);
-    for (int q = 0; q < 12; ++q) {
+    for (int q = 0; q < 14; ++q) {
       V o, e;
       for (size_t a = 0; a < D; ++a) { o[a] = (S(rng() % 20001) / 10000 - 1) * half * S(0.98); e[a] = (S(rng() % 20001) / 10000 - 1) * half * S(0.98); }
-      int kind = q % 6;
+      int kind = q % 7;
       if (kind == 1) e[0] = o[0];                                   // axis-aligned (step 0 along x)
       if (kind == 2) { e = o; e[D - 1] += res * 7; if (e[D - 1] > half * S(0.98)) e[D - 1] = o[D - 1] - res * 7; }   // axis-aligned, other axes fixed
       if (kind == 3) { for (size_t a = 0; a < D; ++a) e[a] = o[a] + res * S(5.5); if (e.maxCoeff() > half * S(0.98)) for (size_t a = 0; a < D; ++a) e[a] = o[a] - res * S(5.5); }  // diagonal
       if (kind == 4) e = o;                                         // coincident
+      if (kind == 6) {                                              // grazing: long run along one axis, the other axes cross one cell border by a hair
+        size_t major = rng() % D;
+        for (size_t a = 0; a < D; ++a) {
+          if (a == major) { o[a] = -half * S(0.9); e[a] = half * S(0.9); if (rng() & 1) std::swap(o[a], e[a]); continue; }
+          // a cell border along this axis, taken from the grid itself: half-way between two neighbouring cell centres
+          Eigen::Matrix<S, D, 1> probe = Eigen::Matrix<S, D, 1>::Zero(); probe[a] = (S(rng() % 20001) / 10000 - 1) * half * S(0.9);
+          auto ci = g.computeCellIndexes(probe); auto cj = ci; cj[a] += 1;
+          S border = (g.computeCellCenterPosition(ci)[a] + g.computeCellCenterPosition(cj)[a]) / 2;
+          S eps = res * (std::is_same<S, float>::value ? S(1e-4) : S(1e-10));
+          o[a] = border - eps; e[a] = border + eps; if (rng() & 1) std::swap(o[a], e[a]);
+        }
+      }
       if (kind == 5) { for (size_t a = 0; a < D; ++a) { o[a] = std::floor(o[a] / res) * res + res / 4; e[a] = std::floor(e[a] / res) * res + res * 3 / 4; } }
       if (e.maxCoeff() > half * S(0.98) || e.minCoeff() < -half * S(0.98) || o.maxCoeff() > half * S(0.98) || o.minCoeff() < -half * S(0.98)) continue;   // both points inside the extent
       one<S, D>(reused, g, o, e, "reused caster", true);
